@@ -40,12 +40,29 @@ structure St where
   out : Array String := #[]
   pendingPC : Option (Nat × Int × List Entry × List Entry × Bytes × Entry) := none
   inExchange : Bool := false
+  lastOp : String := "init"
+  pendingJoinN : Option (Nat × List Hash) := none
 deriving Inhabited
 
 def St.emit (s : St) (m : String) : St := { s with out := s.out.push m }
 def St.count (s : St) (k : String) : St := { s with checks := s.checks.insert k (s.checks.getD k 0 + 1) }
 def St.diff (s : St) (what model impl : String) : St :=
-  { (s.emit s!"DIFF line={s.lineNo} hist={s.hist} {what} model={model} impl={impl}") with diffs := s.diffs + 1 }
+  { (s.emit s!"DIFF line={s.lineNo} hist={s.hist} {s.lastOp}/{what} model={model} impl={impl}") with diffs := s.diffs + 1 }
+def St.known (s : St) (prop key detail : String) : St :=
+  (s.count s!"known:{prop}:{key}").emit s!"KNOWN {prop} {key} line={s.lineNo} hist={s.hist} {detail}"
+
+/-- pairs (a, b) that appear in this order in `old` and in the opposite order in `new` -/
+def swappedPairs (old new : List Hash) : List (Hash × Hash) :=
+  let idx (l : List Hash) (h : Hash) : Option Nat := l.findIdx? (· == h)
+  let rec go : List Hash → List (Hash × Hash)
+    | [] => []
+    | a :: rest =>
+      (rest.filterMap (fun b =>
+        match idx new a, idx new b with
+        | some i, some j => if j < i then some (a, b) else none
+        | _, _ => none)) ++ go rest
+  go old
+
 def St.spec (s : St) (prop name : String) (ok : Bool) (detail : String := "") : St :=
   let s := s.count s!"spec:{prop}:{name}"
   if ok then s else
@@ -108,6 +125,7 @@ def handle (s : St) (line : String) : St :=
                      clock := { id := strBytes clk, time := 0 }, sortFn := parseSort sk }
     s.setRep r.toNat! { log := l, writer := strBytes clk }
   | ["A", r, pc, a] =>
+    let s := { s with lastOp := "append" }
     match s.rep? r.toNat! with
     | none => s.diff "append-unknown-replica" r ""
     | some rep =>
@@ -127,10 +145,12 @@ def handle (s : St) (line : String) : St :=
       let s := { s with pendingPC := some (r.toNat!, toInt! pc, implE, implH, rep.writer, ie) }
       s.setRep r.toNat! { rep with log := l' }
   | ["S", r, clk] =>
+    let s := { s with lastOp := "setid" }
     match s.rep? r.toNat! with
     | none => s
     | some rep => s.setRep r.toNat! { rep with log := setIdentity rep.log (strBytes clk), writer := strBytes clk }
   | ["J", r, r2, size, res] =>
+    let s := { s with lastOp := if toInt! size > -1 then "joinN" else "join" }
     match s.rep? r.toNat!, s.rep? r2.toNat! with
     | some a, some b =>
       if res == "panic" then s.diff "join" "no-panic" "panic" |>.spec "C16" "joinNoPanic" false s!"join {r} {r2} {size}" else
@@ -142,10 +162,20 @@ def handle (s : St) (line : String) : St :=
         let s := if res == "ok" then s else s.diff "join.result" "ok" res
         let total := (omFromList (a.log.entries ++ b.log.entries)).length
         let cut := sz > -1 && sz < total && a.log.id == b.log.id
+        -- C16: the bounded join must keep the last min(n,total) values of the unbounded join
+        let s := if sz > -1 && a.log.id == b.log.id && !a.partialLog && !b.partialLog then
+            match join a.log b.log.id b.log.entries b.log.heads (-1) with
+            | .ok full =>
+              let v := values full
+              let keep := if sz < v.length then v.drop (v.length - sz.toNat) else v
+              { s with pendingJoinN := some (r.toNat!, hashes keep) }
+            | .err => s
+          else s
         s.setRep r.toNat! { a with log := l', partialLog := a.partialLog || cut || (b.partialLog && a.log.id == b.log.id),
                                    orderFree := a.orderFree || (b.orderFree && a.log.id == b.log.id) }
     | _, _ => s.diff "join-unknown-replica" r r2
   | ["L", r, kind, src, n, sk, clk, res] =>
+    let s := { s with lastOp := (if toInt! n > -1 then "loadN:" else "load:") ++ kind }
     if r == "-" then
       -- the implementation refused; the model must refuse too (only `eh` on a log that is not single-headed,
       -- or publishing an empty log)
@@ -176,6 +206,7 @@ def handle (s : St) (line : String) : St :=
         let cut := nI > -1 && nI < fetched.length
         s.setRep r.toNat! { log := l', writer := cid, partialLog := sr.partialLog || cut, orderFree := s.shared }
   | ["I", r, lte, lt, gte, gt, am, res, closed, outs] =>
+    let s := { s with lastOp := "iter" }
     match s.rep? r.toNat! with
     | none => s
     | some rep =>
@@ -192,6 +223,31 @@ def handle (s : St) (line : String) : St :=
       | .errLT => if res == "err:lt" then s else s.diff "iter.result" "err:lt" res
       | .ok out cl =>
         let s := if res == "ok" then s else s.diff "iter.result" "ok" res
+        -- C15 on the implementation's own output, against the traversal-free specification
+        let implE := s.ents rep.lastE
+        let s :=
+          if res == "ok" && !rep.partialLog && !rep.orderFree && rep.log.sortFn != .fww && strictTotalOn rep.log.sortFn implE then
+            let upper : List Hash := match o.lte with
+              | some cs => cs
+              | none => match o.lt with
+                | some cs => (match cs.getLast? with
+                    | some c => (match get? implE c with | some e => e.next | none => [])
+                    | none => hashes (implE.filter (fun e => !referenced implE e.hash)))
+                | none => hashes (implE.filter (fun e => !referenced implE e.hash))
+            let lowerOk := match (match o.gte with | some h => some h | none => o.gt) with
+              | some g => (hashes (pastOf implE upper)).contains g
+              | none => true
+            if !lowerOk then s else
+            let exp := hashes (iterSpec rep.log.sortFn implE upper o.gte o.gt o.amount)
+            let got := s.hs (parseList outs)
+            let amountNoLower := o.amount.isSome && o.gte.isNone && o.gt.isNone && (o.amount.getD 0) ≥ 0
+            if o.amount == some 0 then s.spec "C15" "amountZero" (got.isEmpty) line
+            else if amountNoLower && !unrelatedRoots implE upper then
+              -- related / repeated upper bounds: at most `amount`, a prefix of the full emission
+              let full := hashes (iterSpec rep.log.sortFn implE upper none none none)
+              s.spec "C15" "rangePrefix" (decide (got.length ≤ (o.amount.getD 0).toNat) && got == full.take got.length) line
+            else s.spec "C15" "range" (got == exp) line
+          else s
         let s := if res == "ok" then s.spec "C15" "closed" (closed == "1") line else s
         let s := if (closed == "1") == cl then s else s.diff "iter.closed" (toString cl) closed
         if rep.orderFree then s else s.cmpList "iter.out" (out.map (·.hash)) (parseList outs)
@@ -233,8 +289,29 @@ def handle (s : St) (line : String) : St :=
         -- C05: append-only between successive observations of the same replica
         let s := s.spec "C05" "entriesKept" (rep.lastE.all (fun a => iE.contains a)) s!"replica {r}"
         let s := s.spec "C05" "lenMonotone" (decide (rep.lastE.length ≤ iE.length)) s!"replica {r}"
-        let s := if sto then s.spec "C05" "valuesSubseq" (isSubseq (s.hs rep.lastV) (s.hs iV)) s!"replica {r}" else s
+        let s := if sto then s.spec "C05" "valuesSubseq" (isSubseq (s.hs rep.lastV) (s.hs iV)) s!"replica {r}" else
+          -- ties under the default ordering: the subsequence claim is still evaluated; a failure whose
+          -- swapped pairs are all ties (equal clock id and time) is the known finding `lww-tie-order`
+          if isSubseq (s.hs rep.lastV) (s.hs iV) then s.count "spec:C05:valuesSubseqTie" else
+            let missing := (s.hs rep.lastV).filter (fun h => !(s.hs iV).contains h)
+            let sw := swappedPairs (s.hs rep.lastV) (s.hs iV)
+            let find (h : Hash) := E.find? (fun e => e.hash == h)
+            let allTies := sw.all (fun (a, b) => match find a, find b with
+              | some x, some y => x.clock.id == y.clock.id && x.clock.time == y.clock.time
+              | _, _ => false)
+            if missing.isEmpty && !sw.isEmpty && allTies && l.sortFn == .lww then
+              s.known "C05" "lww-tie-order" s!"replica {r}: {sw.length} tied pair(s) changed relative order"
+            else s.spec "C05" "valuesSubseq" false s!"replica {r} (tie history)"
         s
+      -- C16 for the bounded join that preceded this observation
+      let s := match s.pendingJoinN with
+        | some (pr, keep) =>
+          if pr == r.toNat! then
+            let s := { s with pendingJoinN := none }
+            let s := s.spec "C16" "joinNEntries" (sameSetH (hashes E) keep && (hashes E).length == keep.length) s!"replica {r}"
+            s.spec "C16" "joinNHeads" (headsOk E H) s!"replica {r}"
+          else s
+        | none => s
       -- C04 for the append that preceded this observation
       let s := match s.pendingPC with
         | some (pr, pc, pE, pH, wid, e) =>
@@ -245,7 +322,7 @@ def handle (s : St) (line : String) : St :=
           else s
         | none => s
       s.setRep r.toNat! { rep with lastE := iE, lastV := iV }
-  | ["X", "begin"] => { s with inExchange := true }
+  | ["X", "begin"] => { s with inExchange := true, lastOp := "exchange" }
   | ["X", "end"] =>
     -- C01: after a complete exchange all replicas of one id agree
     let reps := s.reps.toList.filterMap id
